@@ -500,3 +500,312 @@ Example C19_match_literal_nonvacuous :
   /\ Match [97;95;98]%N [97;88;98]%N = Ok false                                (* a_b vs aXb *)
   /\ Match [97;95;98]%N [97;95;98]%N = Ok true.                                (* a_b vs a_b *)
 Proof. repeat split; vm_compute; reflexivity. Qed.
+
+(** ** Round 5: the consumers of the exclude option (cmd/atlas/internal/cmdapi).
+    Model Excl/Consumers.v: the commands that accept [--exclude] ([schema inspect], [schema apply],
+    [schema diff]; [migrate diff] does not and never reads [Env.Exclude]), the pflag string-slice
+    value (every occurrence read by encoding/csv with Comma ','; the first Set replaces, later ones
+    append), [setSchemaEnvFlags] / [maySetFlag] (the env list joined with "," and Set as ONE flag
+    value unless the flag is Changed), the two [stateReader]s of a command, [computeDiff]. *)
+From Atlas Require Import Excl.Consumers Excl.ConsumersProofs.
+
+(** C19_consumers_env_as_flags.  Full statement: "exclude = [p1, ..., pn] in the env block selected
+    with --env means what --exclude p1,...,pn and --exclude p1 ... --exclude pn mean: EVERY pattern
+    of the list is effective, for every command that accepts --exclude."
+    For every such command, every list [ps] of plain patterns (no comma, double quote, CR, LF -- what
+    the csv reader of pflag takes; dots, glob meta characters and [type=...] selectors are plain) whose
+    joined text is not empty, any other env list [e] and all raw states:
+    (1) the value of flags.exclude on the env route is [ps] itself -- all n patterns, in order;
+    (2) it is the same on the route of ONE flag value "p1,...,pn" (whatever the env block says);
+    (3) and on the route of one occurrence per pattern (patterns non-empty);
+    (4) hence the states read and the change set computed by the command are the same on the three routes. *)
+Theorem C19_consumers_env_as_flags :
+  forall (c : command) (ps : list bytes) (e : option (list bytes)) (rawF rawT : realm),
+    has_exclude_flag c = true -> plain_pats ps -> join_comma ps <> [] ->
+    effective (mkInv c [] (Some ps)) = EOk ps
+    /\ effective (mkInv c [join_comma ps] e) = EOk ps
+    /\ (Forall (fun p => p <> []) ps -> effective (mkInv c ps e) = EOk ps)
+    /\ command_diff (mkInv c [] (Some ps)) rawF rawT = command_diff (mkInv c [join_comma ps] e) rawF rawT
+    /\ (Forall (fun p => p <> []) ps ->
+        command_diff (mkInv c [] (Some ps)) rawF rawT = command_diff (mkInv c ps e) rawF rawT).
+Proof.
+  intros c ps e rawF rawT Hc Hps Hne.
+  assert (Hn : ps <> []) by (intros ->; apply Hne; reflexivity).
+  split; [exact (effective_env c ps Hc Hps Hne)|].
+  split; [exact (effective_one_flag c ps e Hc Hps Hne)|].
+  split; [intros Hall; exact (effective_each_flag c ps e Hc Hps Hall Hn)|].
+  exact (command_diff_routes c ps e rawF rawT Hc Hps Hne).
+Qed.
+Print Assumptions C19_consumers_env_as_flags.
+
+(** non-vacuity: env exclude = ["t1", "t2.c*[type=column]"]: both patterns arrive, the second one too *)
+Example C19_consumers_env_nonvacuous :
+  let p1 := [116;49]%N in
+  let p2 := [116;50;46;99;42;91;116;121;112;101;61;99;111;108;117;109;110;93]%N in
+  plain_pats [p1; p2] /\ join_comma [p1; p2] <> []
+  /\ effective (mkInv CApply [] (Some [p1; p2])) = EOk [p1; p2]
+  /\ effective (mkInv CDiff [join_comma [p1; p2]] None) = EOk [p1; p2]
+  /\ effective (mkInv CInspect [p1; p2] (Some [p2])) = EOk [p1; p2].
+Proof.
+  split; [repeat constructor|]. split; [vm_compute; discriminate|].
+  split; [vm_compute; reflexivity|]. split; vm_compute; reflexivity.
+Qed.
+
+(** C19_consumers_env_exact_refuted.  Without the restriction to plain patterns (1) is false of the
+    faithful model: the env list is joined with "," and read back by a csv reader, so ONE env pattern
+    "a,b" (a table called a,b) becomes the TWO patterns a and b, and the table a,b is not excluded;
+    the flag route can say it (--exclude '"a,b"').  Reproduced on the real CLI by the consumers stage
+    (finding C19-env-exclude-comma-resplit). *)
+Theorem C19_consumers_env_exact_refuted :
+  exists ps : list bytes,
+    effective (mkInv CApply [] (Some ps)) = EOk [[97]; [98]]%N
+    /\ effective (mkInv CApply [] (Some ps)) <> EOk ps
+    /\ effective (mkInv CApply [[34;97;44;98;34]%N] None) = EOk ps.
+Proof.
+  exists [[97;44;98]%N]. split; [vm_compute; reflexivity|]. split; [vm_compute; discriminate|].
+  vm_compute; reflexivity.
+Qed.
+Print Assumptions C19_consumers_env_exact_refuted.
+
+(** C19_consumers_flag_hides_env: an [--exclude] on the command line (any values, plain or not) makes the
+    env list irrelevant -- it is replaced, not merged; without --env the list is the flags' alone; a
+    command without the flag ([migrate diff], [schema clean]) has the empty list whatever the env block says. *)
+Theorem C19_consumers_flag_hides_env :
+  forall (c : command) (v : bytes) (occ : list bytes) (e : option (list bytes)),
+    effective (mkInv c (v :: occ) e) = effective (mkInv c (v :: occ) None)
+    /\ effective (mkInv c (v :: occ) None) = effective (mkInv c (v :: occ) (Some []))
+    /\ (has_exclude_flag c = false -> effective (mkInv c [] e) = EOk []).
+Proof.
+  intros c v occ e. split; [exact (effective_flag_wins c v occ e)|].
+  split; [exact (effective_no_env c (v :: occ))|exact (effective_no_flag c e)].
+Qed.
+Print Assumptions C19_consumers_flag_hides_env.
+
+Example C19_consumers_flag_hides_env_nonvacuous :
+  effective (mkInv CApply [[116;49]%N] (Some [[116;50]%N])) = EOk [[116;49]%N]
+  /\ effective (mkInv CApply [] (Some [[116;50]%N])) = EOk [[116;50]%N]
+  /\ effective (mkInv CMigrateDiff [] (Some [[116;50]%N])) = EOk [].
+Proof. split; [vm_compute; reflexivity|]. split; vm_compute; reflexivity. Qed.
+
+(** C19_consumers_env_ignored_refuted.  Statement as worded for the project-file form: "a resource that
+    matches a pattern of the exclude list of the env selected with --env is never created or dropped by a
+    plan of a command run with that env."  False of the faithful model for the two commands that have
+    no exclude flag: with exclude = ["t"], [schema clean --env e] plans DROP TABLE t and
+    [migrate diff --env e] plans CREATE TABLE t, while [schema apply --env e] with the same env leaves t
+    alone.  Reproduced on the real CLI by the consumers stage (findings C19-schema-clean-ignores-env-exclude,
+    C19-migrate-diff-ignores-env-exclude); what does hold: C19_consumers_flag_hides_env (3) -- the list of
+    such a command is empty for every env -- and C19_consumers_same_patterns. *)
+Theorem C19_consumers_env_ignored_refuted :
+  exists (ps : list bytes) (n : bytes) (s0 s1 : schema),
+    In n ps /\ gmatch n n = EOk true
+    /\ command_diff (mkInv CClean [] (Some ps)) [s1] [s0] = EOk ([s1], [s0], Some [DropTable n])
+    /\ command_diff (mkInv CMigrateDiff [] (Some ps)) [s0] [s1] = EOk ([s0], [s1], Some [AddTable n])
+    /\ command_diff (mkInv CApply [] (Some ps)) [s1] [s0] = EOk ([s0], [s0], Some []).
+Proof.
+  exists [[116]%N], [116]%N, (mkSchema [109]%N []),
+         (mkSchema [109]%N [mkTable [116]%N false false [ex_col 97] None [] [] []]).
+  split; [left; reflexivity|]. split; [vm_compute; reflexivity|].
+  split; [vm_compute; reflexivity|]. split; vm_compute; reflexivity.
+Qed.
+Print Assumptions C19_consumers_env_ignored_refuted.
+
+(** C19_consumers_same_patterns.  "For every command both sides of the diff are filtered by the same
+    pattern list": for every invocation (command, flag occurrences, env list) and raw states, when the
+    command reads its two states they are [ExcludeSchema] of the raw states with ONE list, the
+    effective one (first schema = the schema the URL is bound to). *)
+Theorem C19_consumers_same_patterns :
+  forall (i : invocation) (rawF rawT f t : realm),
+    states_of i rawF rawT = EOk (f, t) ->
+    exists pats, effective i = EOk pats
+      /\ read_state link_db rawF pats = EOk f
+      /\ read_state (link_to (i_cmd i)) rawT pats = EOk t.
+Proof. exact states_same_list. Qed.
+Print Assumptions C19_consumers_same_patterns.
+
+(** C19_consumers_plan_ignores_excluded: the change set a command computes (computeDiff on the two states
+    it read) never targets a table or column that the effective list excludes -- composition of the
+    plumbing model with C19_plan_ignores_excluded_partial for the SQLite driver (tables and columns;
+    index / foreign-key level: see there).  [G]: the chains of the effective patterns qualified with the
+    schema name, as ExcludeSchema builds them. *)
+Theorem C19_consumers_plan_ignores_excluded :
+  forall (i : invocation) (pats : list bytes) (G : list (list bytes)) (from to from' to' : schema) (cs : list schange),
+    s_name to = s_name from ->
+    effective i = EOk pats ->
+    split (map (fun p => s_name from ++ ch_dot :: p) pats) = EOk G -> chains_ok G ->
+    command_diff i [from] [to] = EOk ([from'], [to'], Some cs) ->
+    forall c, In c cs -> unexcluded_target G from to c.
+Proof.
+  intros i pats G from to from' to' cs Hnm He Hs HG Hd c Hc.
+  unfold command_diff, states_of in Hd. rewrite He in Hd. unfold states_with, read_state in Hd.
+  destruct (ExcludeSchema link_db [from] from pats) as [f|e1] eqn:E1; [|discriminate].
+  destruct (ExcludeSchema (link_to (i_cmd i)) [to] to pats) as [t|e2] eqn:E2; [|discriminate].
+  inversion Hd as [[Hf Ht Hcs]]. subst f t. clear Hd.
+  destruct pats as [|p ps].
+  - simpl in E1, E2, Hs. injection E1 as <-. injection E2 as <-. injection Hs as <-.
+    apply (C19_plan_ignores_excluded_partial sqlite_driver no_skip link_db link_db [] [] from to from to cs
+             sqlite_norm_keeps_cols sqlite_attr_no_cols eq_refl HG eq_refl eq_refl Hcs c Hc).
+  - unfold ExcludeSchema in E1, E2. rewrite Hnm in E2.
+    exact (C19_plan_ignores_excluded_partial sqlite_driver no_skip link_db (link_to (i_cmd i)) _ G from to from' to' cs
+             sqlite_norm_keeps_cols sqlite_attr_no_cols Hs HG E1 E2 Hcs c Hc).
+Qed.
+Print Assumptions C19_consumers_plan_ignores_excluded.
+
+(** non-vacuity: `schema apply --env e` with exclude = ["x", "t.b"]: only the SECOND pattern matches
+    anything; column b (current state only) is not dropped, column c is added *)
+Example C19_consumers_plan_nonvacuous :
+  command_diff (mkInv CApply [] (Some [[120]; [116;46;98]]%N)) [ex_from] [ex_to]
+  = EOk ([ex_from'], [ex_to], Some [ModifyTable [116]%N [AddColumn [99]%N; DropIndex [105]%N]]).
+Proof. vm_compute. reflexivity. Qed.
+
+(** ** C19_consumers_census (round 5).  The facts about the Go sources that Excl/Consumers.v builds in,
+    re-read from the sources on every run (gen/Gen_ExcludeSites.v, harness/cmd/glob/gensites.go: go/ast over
+    the non-test OSS files of cmd/atlas/internal/{cmdapi,cmdext}, sql/{sqlite,mysql,postgres,migrate,internal/sqlx}):
+    (1) [addFlagExclude] is called by the constructor of a command iff [has_exclude_flag] says so, and by no other function;
+    (2) every [stateReaderConfig] literal of the Run function of a command with the flag carries
+        [exclude: flags.exclude] -- one literal for [schema inspect], BOTH literals for [schema apply] and [schema diff]
+        (the two sides of the diff get the same expression) -- and the literal of [migrateDiffRun] carries none;
+    (3) every read of an Exclude field has a known role; in sql/sqlite, sql/mysql, sql/postgres the only reads are the
+        second argument of [schema.ExcludeRealm] / [schema.ExcludeSchema] in the FINAL return of [InspectRealm] /
+        [InspectSchema] (two per driver): exclusion during inspection is a post-filter of the inspected realm in all three
+        drivers, never a catalogue query (the mode shortcut of sqlx.ModeInspectSchema/Realm for a literal "*" / "*.*"
+        is the one other reader on that path); [Env.Exclude] has exactly one reader, [setSchemaEnvFlags].
+    A finite check over the generated lists ([vm_compute]); a change of the sources that breaks one of the three
+    makes this obligation fail on the next run. *)
+From Atlas Require Import gen.Gen_ExcludeSites Excl.ConsumersCensus.
+
+Theorem C19_consumers_census :
+  census_flags = true /\ census_readers = true /\ census_sites = true.
+Proof. split; [vm_compute; reflexivity|]. split; vm_compute; reflexivity. Qed.
+Print Assumptions C19_consumers_census.
+
+(** non-vacuity: the lists are not empty and name the functions the model is about *)
+Example C19_consumers_census_nonvacuous :
+  List.length gen_exclude_flag_funcs = 3 /\ readers_of "schemaDiffRun"%string = ["flags.exclude"; "flags.exclude"]%string
+  /\ readers_of "migrateDiffRun"%string = ["-"]%string /\ List.length driver_sites = 6.
+Proof. repeat split; vm_compute; reflexivity. Qed.
+
+(** ** Round 5, goal 1: every resource kind of exclude_oss.go.  Model Excl/ExcludeX.v: views (columns,
+    triggers), functions, procedures, schema objects and realm objects (SpecTypeNamer selectors such as
+    [type=enum]), table triggers, next to the tables of Excl/Exclude.v; tied by the excludex stage.
+
+    C19_excludeX_names_ref.  For every realm (any names; a view, a function, a procedure and a table may share
+    a name), link mode and non-empty pattern list that splits into chains [G]: whenever ExcludeRealm succeeds,
+    the schemas of the result are the original ones minus those selected by a one-element chain, and in each
+    of them the views, the functions and the procedures are the original lists minus EXACTLY the selected
+    ones (a [filter]: kept = unchanged, in order):
+      a view is removed by a two-element chain whose second element admits [view] and matches its name
+      (a three-element chain filters its columns / triggers and keeps it);
+      a function / procedure by a chain of two OR THREE elements whose second element admits
+      [function] / [procedure] and matches its name ([routine_hit]).
+    Not in this statement (tied and judged by the oracle of the excludex stage only): the children of a view,
+    table triggers, schema and realm objects; that the call succeeds when every glob is well formed is proved
+    for the table part only (C19_exclude_exact_except). *)
+From Atlas Require Import Excl.ExcludeX Excl.ExcludeXProofs.
+
+Theorem C19_excludeX_names_ref :
+  forall (link : bool * bool) (r r' : xrealm) (patterns : list bytes) (G : list (list bytes)),
+    patterns <> [] -> split patterns = EOk G -> ExcludeRealmX link r patterns = EOk r' ->
+    map names_of (xr_schemas r')
+    = map (ref_names G) (filter (fun s => negb (xschema_hit G (xs_name s))) (xr_schemas r)).
+Proof. intros link r r' patterns G. exact (ExcludeRealmX_names link r patterns G r'). Qed.
+Print Assumptions C19_excludeX_names_ref.
+
+Definition xex_users : bytes := [117;115;101;114;115]%N.
+Definition xex_realm : xrealm :=
+  mkXR [] [mkXS [109]%N [mkXT (mkTable xex_users false false [ex_col 105] None [] [] []) []]
+                 [mkView [118]%N [[105]%N] []; mkView xex_users [[105]%N] []] [xex_users; [102]%N] [xex_users] []].
+
+(** non-vacuity: "m.users" removes table, view, function and procedure users and keeps view v, function f *)
+Example C19_excludeX_names_nonvacuous :
+  exists r', ExcludeRealmX (true, true) xex_realm [([109;46]%N ++ xex_users)%list] = EOk r'
+    /\ map names_of (xr_schemas r') = [([109]%N, [[118]%N], [[102]%N], [])].
+Proof. eexists. split; vm_compute; reflexivity. Qed.
+
+(** C19_excludeX_routine_child_pattern_refuted.  With [routine_hit_strict] (only a two-element chain removes a
+    function / procedure -- what the pattern forms schema.table.child of sql/schema/inspect.go suggest) the statement
+    is false of the faithful model: the pattern "m.users.i" -- column i of TABLE users -- also removes the FUNCTION
+    and the PROCEDURE called users, which match no pattern addressed to them.  Reproduced on the real
+    schema.ExcludeRealm by the excludex stage (finding C19-exclude-child-pattern-removes-routine). *)
+Theorem C19_excludeX_routine_child_pattern_refuted :
+  exists (r r' : xrealm) (patterns : list bytes) (G : list (list bytes)),
+    split patterns = EOk G /\ ExcludeRealmX (true, true) r patterns = EOk r'
+    /\ map (fun s => xs_funcs s) (xr_schemas r')
+       <> map (fun s => filter (fun n => negb (routine_hit_strict typeFn G (xs_name s) n)) (xs_funcs s)) (xr_schemas r)
+    /\ map (fun s => xs_funcs s) (xr_schemas r') = [[[102]%N]]
+    /\ map (fun s => xs_procs s) (xr_schemas r') = [[]].
+Proof.
+  exists xex_realm. eexists. exists [([109;46]%N ++ xex_users ++ [46;105]%N)%list]. eexists.
+  split; [vm_compute; reflexivity|]. split; [vm_compute; reflexivity|].
+  split; [vm_compute; discriminate|]. split; vm_compute; reflexivity.
+Qed.
+Print Assumptions C19_excludeX_routine_child_pattern_refuted.
+
+(** C19_excludeX_tables_conservative.  The table part of the extended model IS the model of Excl/Exclude.v: for every
+    realm with views, functions, procedures, objects and triggers, link mode and pattern list, if ExcludeRealm
+    succeeds on it then it succeeds on the realm reduced to its schemas and tables and gives the reduced
+    result.  Hence C19_exclude_exact_except, C19_exclude_schema_scope and C19_plan_ignores_excluded describe the
+    tables, columns, indexes, foreign keys and checks of such realms too (the other resources never change what
+    happens to them). *)
+Theorem C19_excludeX_tables_conservative :
+  forall (link : bool * bool) (r r' : xrealm) (patterns : list bytes),
+    ExcludeRealmX link r patterns = EOk r' ->
+    ExcludeRealm link (proj_realm r) patterns = EOk (proj_realm r').
+Proof. intros link r r' patterns. exact (ExcludeRealmX_proj link r patterns r'). Qed.
+Print Assumptions C19_excludeX_tables_conservative.
+
+Example C19_excludeX_tables_conservative_nonvacuous :
+  exists r', ExcludeRealmX (true, true) xex_realm [([109;46]%N ++ xex_users ++ [46;105]%N)%list] = EOk r'
+    /\ proj_realm r' = [mkSchema [109]%N [mkTable xex_users false false [] None [] [] []]].
+Proof. eexists. split; vm_compute; reflexivity. Qed.
+
+(** ** C19_skip_census (round 5, goal 3).  Every place where the generic differ and the three dialect differs make a
+    [schema.Change] (gen/Gen_ChangeSites.v: every composite literal [&schema.<Kind>{...}] of sql/internal/sqlx/diff.go,
+    sql/sqlite/diff.go, sql/mysql/diff_oss.go, sql/postgres/diff_oss.go, re-read on every run) either
+    - is an argument of [AddOrSkip], or
+    - is appended to a slice that the same function then feeds element by element to [AddOrSkip]
+      (columnDiff, indexDiffT: [for _, c := range all { changes = opts.AddOrSkip(changes, c) }]), or
+    - sits in a function all of whose calls are arguments of [AddOrSkip] (addTableChange, addViewChange) or sit in
+      such a loop-guarded function (the dialects' ColumnChange, called by columnDiff only), or
+    - makes a kind the diff policy cannot name (gen/Gen_SkipKinds.v);
+    and the kinds made outside every AddOrSkip route are exactly attribute and check changes
+    (AddAttr/DropAttr/ModifyAttr, AddCheck/DropCheck/ModifyCheck) -- the hypothesis [attr_changes_only] of C19_skip,
+    now read off the sources of all three dialects.  A finite check over generated lists; the classification of a
+    literal's context by its parent node (genchanges.go) is syntactic and trusted. *)
+From Atlas Require Import gen.Gen_ChangeSites Excl.SkipCensus.
+
+Theorem C19_skip_census :
+  census_changes = true
+  /\ forallb (fun k => negb (policy_kind k)) unguarded_kinds = true
+  /\ forallb (fun k => in_strs k ["AddAttr"; "DropAttr"; "ModifyAttr"; "AddCheck"; "DropCheck"; "ModifyCheck"]%string) unguarded_kinds = true.
+Proof. split; [vm_compute; reflexivity|]. split; vm_compute; reflexivity. Qed.
+Print Assumptions C19_skip_census.
+
+Example C19_skip_census_nonvacuous :
+  gen_change_literals <> [] /\ gen_addorskip_loops = [("columnDiff", "all"); ("indexDiffT", "all")]%string
+  /\ calls_guarded "addTableChange"%string = true /\ calls_guarded "ColumnChange"%string = true
+  /\ calls_guarded "TableAttrDiff"%string = false /\ unguarded_kinds <> [].
+Proof. split; [vm_compute; discriminate|]. split; [reflexivity|]. repeat split; try (vm_compute; reflexivity). vm_compute. discriminate. Qed.
+
+(** C19_excludeX_exact.  With every glob well formed (then [chains_ok]: C19_chains_ok_wf) the call on a realm with
+    every resource kind SUCCEEDS, and its result is exact at once for: the schemas, the view names, the functions and
+    the procedures (C19_excludeX_names_ref) and -- through the projection -- the tables with their columns, indexes,
+    foreign keys and checks ([ref_realm] of C19_exclude_exact_except). *)
+Theorem C19_excludeX_exact :
+  forall (link : bool * bool) (r : xrealm) (patterns : list bytes) (G : list (list bytes)),
+    patterns <> [] -> split patterns = EOk G -> chains_ok G ->
+    exists r', ExcludeRealmX link r patterns = EOk r'
+      /\ map names_of (xr_schemas r')
+         = map (ref_names G) (filter (fun s => negb (xschema_hit G (xs_name s))) (xr_schemas r))
+      /\ proj_realm r' = ref_realm link G (proj_realm r).
+Proof.
+  intros link r patterns G Hne Hs HG.
+  destruct (ExcludeRealmX_total link r patterns G Hs HG) as [r' E]. exists r'.
+  split; [exact E|]. split; [exact (ExcludeRealmX_names link r patterns G r' Hne Hs E)|].
+  pose proof (ExcludeRealmX_proj link r patterns r' E) as P.
+  rewrite (ExcludeRealm_ref link (proj_realm r) patterns G Hs HG) in P. inversion P; reflexivity.
+Qed.
+Print Assumptions C19_excludeX_exact.
+
+Example C19_excludeX_exact_nonvacuous :
+  exists G, split [([109;46]%N ++ xex_users)%list] = EOk G /\ G = [[[109]%N; xex_users]].
+Proof. eexists. split; vm_compute; reflexivity. Qed.
